@@ -18,7 +18,7 @@ _counter = [0]
 
 def run_cases(mode, path, name, cases, workdir=None, env=None, support=(VSUPPORT,), setup=None,
               timeout=300, syspath=(), log_attr="LOG", always_log=False, max_restarts=50,
-              recursionlimit=3000, python=None):
+              recursionlimit=3000, python=None, case_timeout=20, mem_limit=4 << 30):
     """Execute cases (list of {"expr": ..., "pre"?, "post"?}) against a module.
 
     Returns (import_outcome, outcomes) where outcomes[i] is the canonical outcome list or
@@ -33,7 +33,8 @@ def run_cases(mode, path, name, cases, workdir=None, env=None, support=(VSUPPORT
     view = os.environ.get("CYVERIF_VIEW")
     job = {"mode": mode, "path": path, "name": name, "cases": cases, "out": outp,
            "support": list(support), "setup": setup, "log_attr": log_attr,
-           "always_log": always_log, "recursionlimit": recursionlimit,
+           "always_log": always_log, "recursionlimit": recursionlimit, "case_timeout": case_timeout,
+           "mem_limit": (None if (env and "LD_PRELOAD" in env) else mem_limit),
            "syspath": ([view] if view else []) + list(syspath), "start": 0}
     e = dict(env if env is not None else os.environ)
     e.setdefault("PYTHONHASHSEED", "0")
@@ -89,7 +90,7 @@ def run_cases(mode, path, name, cases, workdir=None, env=None, support=(VSUPPORT
             if nxt >= len(cases):
                 break
             inflight = nxt
-        outcomes[inflight] = ["timeout"] if timed_out else ["crash", _signame(rc), _tail(errp)]
+        outcomes[inflight] = ["timeout"] if (timed_out or rc == -14) else ["crash", _signame(rc), _tail(errp)]
         start = inflight + 1
         restarts += 1
         if start >= len(cases) or restarts > max_restarts:
